@@ -612,20 +612,19 @@ package log
 // a rotated file of the appender: FileName + "." + fourteen digits (yyyyMMddHHmmss)
 //@ spec fun ownName(n string, f string) bool = has_prefix(n, f + ".") && len(n) == len(f) + 15 && (forall k int :: 0 <= k && k < 14 ==> '0' <= n[len(f)+1:][k] && n[len(f)+1:][k] <= '9')
 
-//@ spec fun expiredEntry(x fs.DirEntry, f string, cut smt:S_time_Time) bool = !fs.DirEntry.IsDir(x) && ownName(fs.DirEntry.Name(x), f) && de_info_ok(x) && time_before(fs.FileInfo.ModTime(de_info(x)), cut)
+// cur: the base name of the file the appender is writing to ("" when it has none): never removed
+//@ spec fun curName(c *RollingFileAppender) string = atomPtr[c.file] != nil ? path_base(fdPath[atomPtr[c.file]]) : ""
+//@ spec fun expiredEntry(x fs.DirEntry, f string, cut smt:S_time_Time, cur string) bool = !fs.DirEntry.IsDir(x) && ownName(fs.DirEntry.Name(x), f) && fs.DirEntry.Name(x) != cur && de_info_ok(x) && time_before(fs.FileInfo.ModTime(de_info(x)), cut)
 
-//@ spec rec fun rmAll(es smt:(Array Int Iface), k int, dir string, f string, cut smt:S_time_Time, base Trace) Trace = k <= 0 ? base : (expiredEntry(es[k-1], f, cut) ? tsnoc(rmAll(es, k-1, dir, f, cut, base), 6, 0, 0, 0, dir + "/" + fs.DirEntry.Name(es[k-1])) : rmAll(es, k-1, dir, f, cut, base))
+//@ spec rec fun rmAll(es smt:(Array Int Iface), k int, dir string, f string, cut smt:S_time_Time, cur string, base Trace) Trace = k <= 0 ? base : (expiredEntry(es[k-1], f, cut, cur) ? tsnoc(rmAll(es, k-1, dir, f, cut, cur, base), 6, 0, 0, 0, dir + "/" + fs.DirEntry.Name(es[k-1])) : rmAll(es, k-1, dir, f, cut, cur, base))
 
-// (the cleanup has no notion of "the file being written": what keeps that file is that the cleanup is
-// started only when the current file is the one just created for the running interval, hence not expired)
 //@ func (*RollingFileAppender).clearExpiredFiles
 //@   requires c != nil && 0 <= c.MaxAge && c.MaxAge <= 2562047
-//@   requires[C14:started-only-when-the-current-file-is-the-one-of-the-running-interval] atomPtr[c.file] != nil && fdPath[atomPtr[c.file]] == rfaPath(c, lastNow)
 //@   modifies rm, lastNow, dirEntries, dirCount
-//@   ensures[C14:exactly-own-expired] rm == rmAll(dirEntries, dirCount, c.FileDir, c.FileName, time_add(lastNow, 0 - c.MaxAge * 3600000000000), old(rm))
+//@   ensures[C14:exactly-own-expired-never-the-file-being-written] rm == rmAll(dirEntries, dirCount, c.FileDir, c.FileName, time_add(lastNow, 0 - c.MaxAge * 3600000000000), curName(c), old(rm))
 //@   loop 1 invariant[C14:range] 0 <= $k && $k <= dirCount && dirCount == len(entries)
 //@   loop 1 invariant[C14:listing] forall j int :: 0 <= j && j < len(entries) ==> entries[j] == dirEntries[j] && entries[j] != nil
-//@   loop 1 invariant[C14:prefix] rm == rmAll(dirEntries, $k, c.FileDir, c.FileName, time_add(lastNow, 0 - c.MaxAge * 3600000000000), old(rm))
+//@   loop 1 invariant[C14:prefix] rm == rmAll(dirEntries, $k, c.FileDir, c.FileName, time_add(lastNow, 0 - c.MaxAge * 3600000000000), curName(c), old(rm))
 
 //@ func (*RollingFileAppender).isRotatedFile
 //@   requires c != nil
@@ -1500,7 +1499,6 @@ package log
 //@   ensures[C13:new-file-named-by-now] atomPtr[c.file] != f0 ==> fresh(atomPtr[c.file]) && fdOpen[atomPtr[c.file]] && fdPath[atomPtr[c.file]] == rfaPath(c, lastNow) && fdFlags[atomPtr[c.file]] == os.O_CREATE + os.O_WRONLY + os.O_APPEND && atomPtr[c.oldFile] == f0
 //@   ensures[C05:previous-old-file-closed] time_unix(time_trunc(lastNow, c.Rotation.Interval)) > t0 && !interfered && o0 != nil ==> !fdOpen[o0]
 //@   ensures[C19:either-kept-or-replaced] atomPtr[c.file] == f0 || atomPtr[c.oldFile] == f0
-//@   ensures[C14:no-other-cleanup-is-started] spawned == old(spawned) || spawned == tsnoc(old(spawned), 10, fn("(*RollingFileAppender).clearExpiredFiles"), 0, 0, "")
 
 //@ func (*RollingFileAppender).Write
 //@   requires c != nil && 0 <= c.MaxAge && c.MaxAge <= 2562047 && rfaCells(c)
